@@ -10,8 +10,14 @@ import vlib
 _NOTE = ("Trusted: Coq 8.16.1 kernel; extraction (ExtrOcamlBasic) + OCaml 4.13.1; the hand-written LTS Runner/Lts.v "
          "(sync.Mutex, channels, select, time.Ticker with their textbook semantics), validated against the code by trace "
          "inclusion on every run; Go harness (step controller, fakes) / OCaml driver (inserts the hidden Apply/Tick/TickTake "
-         "events) / check.py glue. Print Assumptions: closed under the global context (no axioms). Not modelled: real "
-         "time, scheduler fairness, memory-model races, goroutine leaks (measured by the harness only).")
+         "events; for Run-level traces only Spawn/WorkerRet; for send deadlines only Stamp/WithTimeout) / check.py glue. "
+         "Print Assumptions: closed under the global context (no axioms). Not modelled: durations (how long a write "
+         "takes), scheduler fairness, memory-model races, goroutine leaks of the real runtime (measured by the harness "
+         "only). Modelled and proved, then observed: the ORDER in which the send deadline is derived (timed layer of "
+         "Runner/RunLts.v: deadline = clock reading after the hook's return + send timeout; the fake transmitter logs "
+         "the deadline of the context it is handed against system-clock readings at the hook's return and at the "
+         "call, with a runner clock that is skewed from the system clock) and Run's own control flow (LTS of Run: "
+         "the connection obtained from Connect is closed on every return path, whenever the cancellation comes).")
 
 PROPERTIES = {
     "C13": {
@@ -22,7 +28,9 @@ PROPERTIES = {
                 "transmission HookRet < Frame() < Transmit with the transmitted frame = the content at Frame(). Tie to the "
                 "code: the real RunMessageReceiver/RunMessageTransmitter run against step-controlled fakes (instrumented "
                 "sync.Locker recording the caller), schedules enumerated in windows + seeded random; every logged trace "
-                "must be accepted by the extracted step_fn and satisfy the ownership bits observed by the fakes.",
+                "must be accepted by the extracted step_fn and satisfy the ownership bits observed by the fakes - from the "
+                "very first access of a thread on, whatever a received frame looks like (remote / extended / wrong-length "
+                "frames with a known ID take the ordinary locked path: C13_rejected_known_frame_locked).",
         "note": _NOTE,
         "technique": "Coq proof of inductive invariants of an LTS + trace-inclusion correspondence under forced schedules",
         "design_ref": "5.13",
@@ -32,10 +40,20 @@ PROPERTIES = {
                 "aborted in {0,1} and =1 exactly inside transmit (I4), no lost toggle (I5) with the parked-ticker corollary, "
                 "at most one stale tick after a handled disable (I6), Done absorbing / cancel stable / failure only "
                 "returns (I7), receive loop = declarative specification, Run's result mapping incl. the 'closed' rule with "
-                "the refutation K1. Tie to the code: logged traces of forced schedules incl. real 1 ms tickers must be "
-                "accepted by the extracted step_fn; whole-node scenarios with the GENERATED example node over a unix socket "
-                "and net.Pipe check counts, toggles, return values, closed connection and goroutine leaks. PARTIAL: "
-                "durations, fairness and leak-freedom are measured, not proved.",
+                "the refutation K1; send deadline handed to TransmitFrame = (clock reading after the before-transmit hook "
+                "returned, not after the call) + send timeout, so a slow hook never costs the frame "
+                "(C14_transmit_deadline_after_hook, timed layer conservative over the LTS); LTS of Run: on every return "
+                "path after a successful Connect - cancelled before Run, during Connect, while running, or a goroutine "
+                "failed - the connection has been closed and every goroutine of the group has returned "
+                "(C14_run_returns_clean); initial states with the flag already set and no wake-up token (role RoleTxOn) "
+                "are covered by every invariant (C14_enabled_parked_is_armed). Tie to the code: logged traces of forced schedules incl. real 1 ms tickers must be "
+                "accepted by the extracted step_fn and, decorated with the observed deadlines and clock readings, by the "
+                "extracted tstep; whole-node scenarios with the GENERATED example node over a unix socket "
+                "and net.Pipe check counts, toggles, return values, closed connection and goroutine leaks, incl. hooks "
+                "slower than the send timeout (event and cyclic) and cancellation before Run / during Connect; their "
+                "Run-level traces (Connect, Close, return) must be accepted by the extracted qstep. PARTIAL: "
+                "durations (that a write finishes within its send timeout), fairness and leak-freedom of the real "
+                "runtime are measured, not proved.",
         "note": _NOTE + " Known finding K1 (Run maps any error containing 'closed' to nil) is reproduced by one scenario.",
         "technique": "Coq proof of inductive invariants of an LTS + trace-inclusion correspondence + whole-node scenarios",
         "design_ref": "5.14",
@@ -47,17 +65,28 @@ RULES = {
            "traces from the exhaustive exploration of the LTS for {1 receiver, 1 transmitter, 1 application thread} "
            "(complete reachable abstract state space, see coverage.model_exploration: every transition as BFS-shortest path "
            "+ the transition; quick = seeded sample, thorough = all) forced event by event (xf = followed, xp = abandoned at "
-           "a select choice after Cancel that cannot be forced); (b) 6 fixed "
+           "a select choice after Cancel that cannot be forced; the same exploration once more for a transmitter whose "
+           "message is already enabled at the start with an empty wake-up channel: xfon / xpon; frames whose unmarshal the "
+           "model trace lets fail are given the shapes remote / extended / wrong length / scripted failure in turn); (b) 7 fixed "
            "scenarios (receiver + 1..2 transmitters + 1..3 application threads; hooks that lock and mutate; hook / transmit / "
-           "unmarshal errors; cancel races) with every combination of choices inside sliding windows of 3 consecutive "
+           "unmarshal errors; remote, extended and wrong-length frames with known and unknown IDs; a transmitter started "
+           "with the flag already set; cancel races) with every combination of choices inside sliding windows of 3 consecutive "
            "scheduling decisions, seeded random scenarios under seeded random schedules; distinct by line hash; every "
            "trace counts as non-trivial (each contains lock sections of at least two threads); (c) debug HTTP handlers of the "
            "generated MOTOR and DRIVER nodes (Rx and Tx): not served while the application holds the node lock, the lock is "
            "held while a page is served (handshake inside the ResponseWriter), the page shows both signals of an update",
     "C14": "as C13 (incl. the forced model traces) plus schedules with a real 1 ms ticker (ticks nondeterministic, hidden Tick/TickTake inferred) and the "
            "whole-node scenarios with the generated DRIVER node (event exactly-once, toggles while parked/busy, receive "
-           "order, failing rx hook / tx hook / unmarshal / transmit, cancel, K1) over a unix socket and net.Pipe; one case "
-           "per trace / WN check / RUN line; distinct by line hash",
+           "order, failing rx hook / tx hook / unmarshal / transmit / Connect, cancel while running / before Run / during "
+           "Connect, before-transmit hooks slower than the send timeout for an event request and for cyclic ticks, event "
+           "requests to each transmitted message in turn with frames attributed per message ID, run / cancel / run again "
+           "on the same node value (enabled in run 1 -> run 2 transmits without a new toggle; disabled -> silent; enabled "
+           "while nothing runs -> next run transmits), remote / extended / wrong-length / well-formed frames with a known ID "
+           "(SH lines: receiver stops iff the model's shape_accepts is false), K1) "
+           "over a unix socket and net.Pipe; every transmission of every trace additionally carries the deadline the "
+           "frame transmitter was handed (coverage.kinds.deadlines_checked; event messages with cycle times 0 / 0.7 ms / "
+           "2 ms / 40 ms / 250 ms / 3 s, runner clock skewed by 0 / -1 h / +1 h / -3 ms from the system clock); one case "
+           "per trace / WN check / RUN line / RN line (Run-level trace); distinct by line hash (clock readings excluded)",
 }
 
 
@@ -141,6 +170,16 @@ def _run_with_model_traces(res, pid, mode, quick, args, gen_dir):
                           "the flag read) + seeded sample of %d transitions" % (m.group(5), limit),
             }
             args = args + ["dir=" + gen_file]
+            # the same for a transmitter whose message is already enabled when it starts (no wake-up token)
+            gen_on = os.path.join(gen_dir, "model-traces-on.txt")
+            rc2, out2 = vlib.sh([drv, "gen", gen_on, str(limit // 4), str(res.seed), "on"], timeout=900)
+            m2 = re.search(r"GEN states=(\d+) transitions=(\d+) depth=(\d+) written=(\d+) toggles=(\d+)", out2)
+            if rc2 == 0 and m2:
+                explo["enabled_at_start"] = {"states": int(m2.group(1)), "transitions": int(m2.group(2)),
+                                             "bfs_depth": int(m2.group(3)), "traces_replayed": int(m2.group(4))}
+                args = args + ["diron=" + gen_on]
+            else:
+                explo["enabled_at_start"] = {"error": out2[-300:]}
         else:
             explo = {"error": "model exploration failed: " + out[-300:]}
     except Exception as e:  # the remaining schedules still run
@@ -154,8 +193,13 @@ def _run_with_model_traces(res, pid, mode, quick, args, gen_dir):
          "configurations: windowed enumeration + seeded random)",
          "sync.Mutex, channels, select and time.Ticker behave as modelled (one owner; capacity-1 wake-up channel with "
          "non-blocking send; rendezvous event channel; ticker buffer of one, Stop leaves a buffered tick)",
-         "the OCaml driver inserts only Apply / Tick / TickTake events (not observable at the interfaces)",
-         "real time, fairness, goroutine leaks and the closed connection are measured by the whole-node scenarios only"],
+         "the OCaml driver inserts only Apply / Tick / TickTake events (not observable at the interfaces); into timed "
+         "traces only Stamp / WithTimeout with the observed clock readings; into Run-level traces only Spawn / WorkerRet",
+         "context.WithTimeout reads the system clock (monotonic) when it is called; the harness's readings of the same clock "
+         "at the hook's return and at the entry of TransmitFrame bracket it",
+         "durations, fairness and goroutine leaks are measured by the whole-node scenarios only; a whole-node scenario "
+         "whose outcome depends on a write finishing within one cycle time is repeated with longer cycle times before it "
+         "counts as failed"],
         driver_args=[mode], timeout=1500 if quick else 3000, known_matcher=_known_matcher(pid),
         corr_name="every logged trace of the real runner under forced schedules is accepted by the extracted step_fn and "
                   "satisfies the trace predicates (harness/runner | ocaml/runner_main.ml %s)" % mode)
